@@ -524,13 +524,6 @@ pub fn probe_local(ip: usize, bp: u16, rel_idx: u16, stack_len: usize) {
     }
 }
 
-/// vm.rs GetGlobal
-pub fn probe_global(ip: usize, idx: u16, globals_len: usize) {
-    if probing() && idx as usize >= globals_len {
-        probe_fail("global:index", ip, globals_len, idx as i64);
-    }
-}
-
 /// vm.rs CallBuiltin
 pub fn probe_builtin(ip: usize, builtin: u8, num_args: usize, stack_len: usize, bp: u16) {
     if !probing() {
